@@ -225,7 +225,10 @@ def check_libtest(rec, out):
     if suite_start is None or suite_end is None:
         out.append(("libtest-suite-lines", "libtest: suite started/finished line missing"))
         return
-    # every started has exactly one result with the same name
+    # every started has exactly one result with the same name: names identify the entries
+    dup = [n for n, k in ms(started).items() if k > 1]
+    if dup:
+        out.append(("libtest-name-collision", f"libtest: {len(dup)} test names are used by more than one started line, e.g. {dup[0]!r}"))
     sc, rc = ms(started), ms(n for n, _, _ in results)
     if sc != rc:
         # known: path-less features get a fresh counter on every call
@@ -347,6 +350,10 @@ def check_json(rec, out):
 
 def check_junit(rec, out):
     facts = rec["facts"]
+    if rec.get("opts", {}).get("deco") == "DupPathless":
+        # two features equal by value: their JUnit test cases cannot be told apart, so
+        # pairing cases with attempts would be a guess (the other reporters are checked)
+        return
     try:
         root = ET.fromstring(rec["junit"])
     except ET.ParseError as e:
